@@ -50,8 +50,8 @@ META = {
                    'validated, class definition / Meta binding running concurrently with calls. The v1 engine is tied by the '
                    'direct predicate and one abstract protocol (catch-all pop) only, not by a full program model.'),
     'rule': ('scenario families x thread programs (2-3 threads, 1-2 calls each) x all schedules with <= bound preemptions at the '
-             'H2 yield points (quick: bound 2, at most ~150-250 schedules per scenario chosen pseudo-randomly from the frontier when '
-             'there are more; thorough: bound 3, up to 2500). A run is non-trivial when at least one preemption happened and two '
+             'H2 yield points (quick: bound 2, at most ~220 schedules per scenario chosen pseudo-randomly from the frontier when '
+             'there are more; thorough: bound 3, up to 2000). A run is non-trivial when at least one preemption happened and two '
              'threads both passed a yield point; distinct = distinct (scenario, schedule). Stress: real threads, switch interval 1e-6.'),
     'trusted_base': [
         'model rules R1-R4 of coq/model/ConcModel.v (CPython: one dict get/set/pop/len is atomic; dicts iterate in insertion '
